@@ -75,7 +75,7 @@ class Filters(Stream):
         n = 900 if tier == "quick" else 25000
         for i in range(n):
             at = L.gen_atree(rng, rich=(i % 2 == 0), expert=True, maxn=4)
-            doc = L.canonical_render(at) if i % 3 == 0 else L.render(rng, at, stage_b=False)[0]
+            doc = L.canonical_render(at) if i % 3 == 0 else L.render(rng, at, stage_b=(i % 2 == 1))[0]   # stage_b: dotted names, continuations, off regions
             yield {"doc": doc, "expert": rng.choice([None, -1, 0, 1, 2, 3, 4, 5]), "level": rng.choice([0, 1, 2, 3]),
                    "prefix": rng.choice(self.PREFIXES), "width": rng.choice([None, 50, 60, 79, 120, 100000])}
 
